@@ -2,6 +2,7 @@ import Cinco.Drv.Wire
 import Cinco.Drv.FieldWire
 import Cinco.Drv.CfgWire
 import Cinco.Drv.ProxyWire
+import Cinco.Drv.StubWire
 import Cinco.TreeIO.Include
 import Cinco.Format.Xml
 import Cinco.Format.Yaml
@@ -266,6 +267,7 @@ def handle (cmd : String) (j : Json) : R Json := do
   | "cfg.run" => cfgRun j
   | "env.name" => envNameCmd j
   | "paths" => pathsCmd j
+  | "stub.gen" => stubGen j
   | "list.run" => listRun j
   | "dict.run" => dictRun j
   | "hash" => do
